@@ -91,11 +91,20 @@ func (r *Reader) newExifBox(b *box) (inner box, err error) {
 	if err != nil {
 		return
 	}
-	var size int
+	// The item begins with exif_tiff_header_offset, the number of bytes between
+	// that field and the Tiff header: usually 6 for "Exif\0\0", which is looked
+	// for first (also one word further on); writers may leave the prefix out.
+	size := -1
 	for i := 0; i+8 <= len(buf); i += 4 {
 		if string(buf[i+4:i+4+4]) == "Exif" {
 			size = int(bmffEndian.Uint32(buf[i:i+4])) + i
 			break
+		}
+	}
+	if size < 0 {
+		size = 0
+		if off := bmffEndian.Uint32(buf[:4]); uint64(off)+4 < r.heic.exif.ol.length {
+			size = int(off)
 		}
 	}
 
